@@ -714,8 +714,11 @@ class RTCPeerConnection(AsyncIOEventEmitter):
         # but the `alwaysNegotiateDataChannels` option overrides that:
         # https://w3c.github.io/webrtc-extensions/#always-negotiating-datachannels
         # This implies that it will be used for negotiating BUNDLE.
-        if not self.__sctp and self.__configuration.alwaysNegotiateDataChannels:
-            self.__createSctpTransport()
+        if self.__configuration.alwaysNegotiateDataChannels and (
+            not self.__sctp or self.__sctp.mid is None
+        ):
+            if not self.__sctp:
+                self.__createSctpTransport()
             add_datachannel_section()
 
         for transceiver in filter(
